@@ -18,6 +18,8 @@
 (*   and returns Pending without polling it.                               *)
 (*   Variant "intended": both cases go round the loop again (next          *)
 (*   poll_accept resp. poll the sleep).                                    *)
+(*   Variant "bounded_drain" (seeded fault): the loop gives up after       *)
+(*   DrainBound failed set-ups in one poll and returns Pending.            *)
 (*                                                                         *)
 (* Part B (C36) - the address registry: a sorted vector behind an ArcSwap  *)
 (* plus a write mutex.  One process per connection: get(addr) = load ->    *)
@@ -54,9 +56,14 @@ VARIABLES n,          \* number of connections of this behaviour
           waker,      \* the I/O driver holds the task's waker for the listening socket
           timer,      \* back-off sleep: "none" | "created" (never polled) | "armed" (polled, waker held) | "fired"
           errs,       \* accept errors injected so far
-          outcome     \* outcome[c]: "none" | "served" (stream yielded to the server) | "dropped" (socket closed)
+          outcome,    \* outcome[c]: "none" | "served" (stream yielded to the server) | "dropped" (socket closed)
+          drained     \* failed set-ups handled in the current poll (for the seeded fault "bounded_drain")
 
-varsA == <<n, setup, arrived, backlog, task, waker, timer, errs, outcome>>
+varsA == <<n, setup, arrived, backlog, task, waker, timer, errs, outcome, drained>>
+
+(* Seeded fault "bounded_drain": at most DrainBound failed set-ups are      *)
+(* handled per poll, then Poll::Pending is returned with no waker stored.  *)
+DrainBound == 2
 
 InitA ==
   /\ n \in 1..MaxConn
@@ -64,6 +71,7 @@ InitA ==
   /\ arrived = 0 /\ backlog = <<>>
   /\ task = "polling" /\ waker = FALSE /\ timer = "none" /\ errs = 0
   /\ outcome = [c \in 1..n |-> "none"]
+  /\ drained = 0
 
 (* A client completes the handshake.  The kernel marks the listening socket *)
 (* readable; the I/O driver wakes the task iff it holds its waker (and     *)
@@ -73,8 +81,8 @@ Arrive ==
   /\ arrived' = arrived + 1
   /\ backlog' = Append(backlog, arrived + 1)
   /\ IF waker /\ task = "parked"
-       THEN task' = "polling" /\ waker' = FALSE
-       ELSE UNCHANGED <<task, waker>>
+       THEN task' = "polling" /\ waker' = FALSE /\ drained' = 0
+       ELSE UNCHANGED <<task, waker, drained>>
   /\ UNCHANGED <<n, setup, timer, errs, outcome>>
 
 (* rtr.rs:155-160: a back-off sleep exists and is polled first. *)
@@ -83,14 +91,14 @@ PollBackoff ==
   /\ IF timer = "fired"
        THEN timer' = "none" /\ UNCHANGED task                  \* *this.backoff = None; fall through to the accept
        ELSE timer' = "armed" /\ task' = "parked"               \* Sleep::poll registered the waker: Pending is legal
-  /\ UNCHANGED <<n, setup, arrived, backlog, waker, errs, outcome>>
+  /\ UNCHANGED <<n, setup, arrived, backlog, waker, errs, outcome, drained>>
 
 (* rtr.rs:182: poll_accept -> Pending.  accept() said WouldBlock, tokio     *)
 (* cleared the readiness and stored the waker.                             *)
 PollEmpty ==
   /\ task = "polling" /\ timer = "none" /\ backlog = <<>>
   /\ waker' = TRUE /\ task' = "parked"
-  /\ UNCHANGED <<n, setup, arrived, backlog, timer, errs, outcome>>
+  /\ UNCHANGED <<n, setup, arrived, backlog, timer, errs, outcome, drained>>
 
 (* rtr.rs:162-169: accepted, RtrStream::new succeeded: Ready(Some(Ok)).    *)
 (* Server::run spawns the connection and polls the stream again.           *)
@@ -98,6 +106,7 @@ PollAcceptOk ==
   /\ task = "polling" /\ timer = "none" /\ backlog # <<>> /\ setup[Head(backlog)]
   /\ outcome' = [outcome EXCEPT ![Head(backlog)] = "served"]
   /\ backlog' = Tail(backlog)
+  /\ drained' = 0                                              \* Ready: Server::run polls the stream afresh
   /\ UNCHANGED <<n, setup, arrived, task, waker, timer, errs>>
 
 (* rtr.rs:170: accepted, RtrStream::new failed (keepalive options rejected *)
@@ -107,7 +116,8 @@ PollAcceptFail ==
   /\ task = "polling" /\ timer = "none" /\ backlog # <<>> /\ ~setup[Head(backlog)]
   /\ outcome' = [outcome EXCEPT ![Head(backlog)] = "dropped"]
   /\ backlog' = Tail(backlog)
-  /\ IF Variant = "as_shipped"
+  /\ drained' = drained + 1
+  /\ IF Variant = "as_shipped" \/ (Variant = "bounded_drain" /\ drained + 1 >= DrainBound)
        THEN task' = "parked"                                   \* Err(_) => Poll::Pending
        ELSE UNCHANGED task                                     \* continue with the next poll_accept
   /\ UNCHANGED <<n, setup, arrived, waker, timer, errs>>
@@ -121,13 +131,13 @@ AcceptError ==
   /\ IF Variant = "as_shipped"
        THEN task' = "parked"                                   \* Poll::Pending with the sleep never polled
        ELSE UNCHANGED task                                     \* loop: PollBackoff polls the sleep
-  /\ UNCHANGED <<n, setup, arrived, backlog, waker, outcome>>
+  /\ UNCHANGED <<n, setup, arrived, backlog, waker, outcome, drained>>
 
 (* The timer driver fires an armed sleep and wakes the task.  A sleep that  *)
 (* was never polled holds no waker: nothing happens when its time is up.   *)
 TimerFire ==
   /\ timer = "armed"
-  /\ timer' = "fired" /\ task' = "polling"
+  /\ timer' = "fired" /\ task' = "polling" /\ drained' = 0
   /\ UNCHANGED <<n, setup, arrived, backlog, waker, errs, outcome>>
 
 TaskStep == PollBackoff \/ PollEmpty \/ PollAcceptOk \/ PollAcceptFail \/ AcceptError
@@ -296,7 +306,7 @@ TypeB ==
 
 IdleA ==
   /\ n = 1 /\ setup = [c \in 1..1 |-> TRUE] /\ arrived = 0 /\ backlog = <<>> /\ task = "parked"
-  /\ waker = TRUE /\ timer = "none" /\ errs = 0 /\ outcome = [c \in 1..1 |-> "none"]
+  /\ waker = TRUE /\ timer = "none" /\ errs = 0 /\ outcome = [c \in 1..1 |-> "none"] /\ drained = 0
 IdleB ==
   /\ addr = [t \in Threads |-> CHOOSE a \in Addrs : TRUE] /\ list = <<>> /\ owner = 0
   /\ pc = [t \in Threads |-> "closed"] /\ snap = [t \in Threads |-> <<>>] /\ ret = [t \in Threads |-> 0]
